@@ -69,6 +69,8 @@ pub struct DevInner {
     /// a write hit by a fault is not answered with an error but accepts 0 bytes (`Ok(0)`: a full destination;
     /// std's `write_all` turns that into ErrorKind::WriteZero)
     pub zero_write_on_fault: bool,
+    /// the calls during which a fault fired (kept even when logging is off)
+    pub fault_calls: Vec<u32>,
 }
 
 #[derive(Clone)]
@@ -94,6 +96,7 @@ impl Dev {
             unflushed: 0,
             fault_kind: io::ErrorKind::Other,
             zero_write_on_fault: false,
+            fault_calls: vec![],
         })))
     }
     pub fn quiet(data: Vec<u8>) -> Dev {
@@ -121,6 +124,9 @@ impl Dev {
     }
     pub fn unflushed(&self) -> u64 {
         self.0.borrow().unflushed
+    }
+    pub fn fault_calls(&self) -> Vec<u32> {
+        self.0.borrow().fault_calls.clone()
     }
     pub fn faults_fired(&self) -> u32 {
         self.0.borrow().faults_fired
@@ -167,6 +173,8 @@ impl DevInner {
         }
         if fail {
             self.faults_fired += 1;
+            let c = self.call;
+            self.fault_calls.push(c);
             if self.logging {
                 let call = self.call;
                 self.log.push(Op::Failed { call, what });
